@@ -293,11 +293,26 @@ def build(template_path, repo, variant="strict"):
                             first_sig = False
                         t = t2
                     out.append((t, ("repo", relfile, o) if isinstance(o, int) else (o or ("gen", None, 0))))
+                has_ens = any(re.match(r"\s*ensures\b", c) for c, _ in opts["spec"])
+                done_can = False
                 for (ctext, corig) in opts["spec"]:
-                    out.append(("    " + (re.sub(r"//\s*O:", "// o:", ctext) if emit_canary else ctext), corig))
-                if emit_canary:
-                    has_ens = any(re.match(r"\s*ensures\b", c) for c, _ in opts["spec"])
-                    out.append(("    %s false, // O:canary.%s" % ("" if has_ens else "ensures", gen_name), ("gen", None, 0)))
+                    if emit_canary:
+                        ctext = re.sub(r"//\s*O:", "// o:", ctext)
+                        if has_ens and not done_can and re.match(r"\s*ensures\b", ctext):
+                            ctext = re.sub(r"^(\s*ensures)\b", r"\1 false,", ctext, count=1)
+                            done_can = True
+                    out.append(("    " + ctext, corig))
+                if emit_canary and not has_ens:
+                    # no ensures clause: put one in front of a decreases clause if there is one, else at the end
+                    idx = None
+                    for q in range(len(out) - len(opts["spec"]), len(out)):
+                        if re.match(r"\s*decreases\b", out[q][0]):
+                            idx = q
+                            break
+                    if idx is None:
+                        out.append(("    ensures false,", ("gen", None, 0)))
+                    else:
+                        out.insert(idx, ("    ensures false,", ("gen", None, 0)))
                 if opts["bodyless"]:
                     out.append(("    { unimplemented!() }", ("gen", None, 0)))
                 else:
